@@ -182,10 +182,43 @@ pub fn run(cfg: &RunCfg) -> CheckReport {
         });
     });
     rep.part("pairs", json!({"scopes": space.describe(), "algorithms": 3, "offsets": format!("{:?}", OFFSETS)}), ex);
+    if rep.has_violation() {
+        return rep;
+    }
+    super::large::run_part(cfg, &mut rep, &ALGS, &|a| if a == Algorithm::Lcs { 300 } else { usize::MAX }, check_large);
     rep
 }
 
+/// the C01 clauses on one large input: full range + one sub-range embedding (window Index)
+pub fn check_large(alg: Algorithm, inp: &super::large::LargeInput) -> Result<(bool, u64, u64), String> {
+    let (old, new) = (&inp.old[..], &inp.new[..]);
+    let (n, m) = (old.len(), new.len());
+    let base = raw_stream(alg, 0, old, 0..n, new, 0..m)?;
+    let st = validate_stream(&base, old, 0..n, new, 0..m, true)?;
+    let (po, pn) = (7usize, 3usize);
+    let fo = super::large::embed32(old, po, 2, new);
+    let fnw = super::large::embed32(new, pn, 2, old);
+    let wo = Win { data: &fo, lo: po, hi: po + n };
+    let wn = Win { data: &fnw, lo: pn, hi: pn + m };
+    let got = raw_stream(alg, 0, &wo, po..po + n, &wn, pn..pn + m)
+        .map_err(|e| format!("sub-ranges old {:?} new {:?} (window Index): {}", po..po + n, pn..pn + m, e))?;
+    validate_stream(&got, &fo, po..po + n, &fnw, pn..pn + m, true)
+        .map_err(|e| format!("sub-ranges old {:?} new {:?}: {}", po..po + n, pn..pn + m, e))?;
+    if got != shifted(&base, po, pn) {
+        return Err(format!(
+            "sub-ranges old {:?} new {:?}: stream differs from the stream on the extracted slices shifted by the range starts",
+            po..po + n,
+            pn..pn + m
+        ));
+    }
+    Ok((st.equal_calls > 0 && st.change_calls > 0, base.len() as u64 + got.len() as u64, calls_fp(&base)))
+}
+
 pub fn replay(case: &Value) -> Result<String, String> {
+    if let Some(r) = super::large::resolve(case) {
+        let (alg, inp) = r?;
+        return check_large(alg, &inp).map(|o| format!("holds; fingerprint {:x}", o.2));
+    }
     let alg = parse_alg(case)?;
     let old = parse_seq(case, "old")?;
     let new = parse_seq(case, "new")?;
